@@ -656,7 +656,13 @@ class RTCDtlsTransport(AsyncIOEventEmitter):
             if data is None:
                 self.__log_debug("- DTLS shutdown by remote party")
                 raise ConnectionError
-            elif data and self._data_receiver:
+            elif (
+                data and self._data_receiver and self._state == State.CONNECTED
+            ):
+                # Application data can surface while the handshake is still
+                # being driven (OpenSSL completes it inside recv() and releases
+                # buffered records): never hand it over before the peer's
+                # fingerprint has been checked.
                 await self._data_receiver._handle_data(data)
         elif first_byte > 127 and first_byte < 192 and self._rx_srtp:
             # SRTP / SRTCP
